@@ -78,6 +78,8 @@ Definition tview_step (c : cfg) (o : op) (tnow : N) (t : target) (ts : tstate) :
   | Advance _ => ts
   | Update k key v => if target_eqb t (k, key) then fst (tstep c (fst t) tnow ts (Some v)) else ts
   | Observe k key => if target_eqb t (k, key) then fst (tstep c (fst t) tnow ts None) else ts
+  | Register k key => if target_eqb t (k, key) then treg ts else ts
+  | Complete k key v => if target_eqb t (k, key) then tcomp ts v else ts
   end.
 
 Definition op_out (c : cfg) (o : op) (tnow : N) (s : st) : out :=
@@ -85,6 +87,8 @@ Definition op_out (c : cfg) (o : op) (tnow : N) (s : st) : out :=
   | Advance _ => OUnit
   | Update _ _ _ => OUnit
   | Observe k key => snd (tstep c k tnow (tstate_of s (k, key)) None)
+  | Register _ _ => OUnit
+  | Complete _ _ _ => OUnit
   end.
 
 Lemma of_nat_S_length {A} (l : list A) x : N.of_nat (length (x :: l)) = N.of_nat (length l) + 1.
@@ -126,6 +130,63 @@ Proof.
         rewrite lookup_insert_same. unfold tstate_of. rewrite Hl. cbn.
         unfold anchor_of. cbn [ents]. rewrite Ht0. reflexivity.
       * rewrite lookup_insert_other by exact E. reflexivity.
+Qed.
+
+Lemma step_register c s k key :
+  inv s ->
+  let s' := fst (step c s (Register k key)) in
+  inv s' /\ now s' = now s /\ snd (step c s (Register k key)) = OUnit /\
+  forall t, tstate_of s' t = tview_step c (Register k key) (now s) t (tstate_of s t).
+Proof.
+  intros Hinv. cbn [step]. set (t0 := (k, key)).
+  pose proof (Hinv t0) as Ht0.
+  destruct (lookup t0 (reg s)) as [[g vs]|] eqn:Hl; cbn [fst snd now reg ents].
+  - repeat split; auto. intros t. unfold tview_step. fold t0.
+    destruct (target_eqb t t0) eqn:E; [|reflexivity].
+    destruct (target_eqb_spec t t0); [subst t|discriminate].
+    unfold tstate_of. rewrite Hl. reflexivity.
+  - repeat split.
+    + intros t. cbn [reg ents]. destruct (target_eqb t t0) eqn:E.
+      * destruct (target_eqb_spec t t0); [subst t|discriminate].
+        rewrite lookup_insert_same. split; [reflexivity|].
+        intros lg lt H. rewrite Ht0 in H. discriminate.
+      * rewrite lookup_insert_other by exact E. apply Hinv.
+    + intros t. unfold tview_step. fold t0. unfold tstate_of at 1. cbn [reg ents].
+      destruct (target_eqb t t0) eqn:E.
+      * destruct (target_eqb_spec t t0); [subst t|discriminate].
+        rewrite lookup_insert_same. unfold tstate_of. rewrite Hl. cbn.
+        unfold anchor_of. cbn [ents]. rewrite Ht0. reflexivity.
+      * rewrite lookup_insert_other by exact E. reflexivity.
+Qed.
+
+Lemma step_complete c s k key v :
+  inv s ->
+  let s' := fst (step c s (Complete k key v)) in
+  inv s' /\ now s' = now s /\ snd (step c s (Complete k key v)) = OUnit /\
+  forall t, tstate_of s' t = tview_step c (Complete k key v) (now s) t (tstate_of s t).
+Proof.
+  intros Hinv. cbn [step]. set (t0 := (k, key)).
+  pose proof (Hinv t0) as Ht0.
+  destruct (lookup t0 (reg s)) as [[g vs]|] eqn:Hl; cbn [fst snd now reg ents].
+  - destruct Ht0 as [Hg Hle]. repeat split.
+    + intros t. cbn [reg ents]. destruct (target_eqb t t0) eqn:E.
+      * destruct (target_eqb_spec t t0); [subst t|discriminate].
+        rewrite lookup_insert_same. split; [rewrite of_nat_S_length; lia|].
+        intros lg lt H. specialize (Hle _ _ H). lia.
+      * rewrite lookup_insert_other by exact E. apply Hinv.
+    + intros t. unfold tview_step. fold t0. unfold tstate_of at 1. cbn [reg ents].
+      destruct (target_eqb t t0) eqn:E.
+      * destruct (target_eqb_spec t t0); [subst t|discriminate].
+        rewrite lookup_insert_same. unfold tstate_of. rewrite Hl. cbn.
+        unfold anchor_of. cbn [ents].
+        destruct (lookup t0 (ents s)) as [[lg lt]|] eqn:He; [|reflexivity].
+        specialize (Hle _ _ eq_refl).
+        destruct (N.eqb_spec lg (g + 1)); [lia|reflexivity].
+      * rewrite lookup_insert_other by exact E. reflexivity.
+  - repeat split; auto. intros t. unfold tview_step. fold t0.
+    destruct (target_eqb t t0) eqn:E; [|reflexivity].
+    destruct (target_eqb_spec t t0); [subst t|discriminate].
+    unfold tstate_of. rewrite Hl. reflexivity.
 Qed.
 
 Lemma step_advance c s d :
@@ -226,10 +287,12 @@ Lemma trun_cons c t tnow s o r :
    | _ => []
    end) ++ trun c t (op_now o tnow) (tview_step c o tnow t s) r.
 Proof.
-  destruct o as [k key v|d|k key]; cbn [trun op_now tview_step].
+  destruct o as [k key v|d|k key|k key|k key v]; cbn [trun op_now tview_step].
   - destruct (target_eqb t (k, key)); [destruct (tstep c (fst t) tnow s (Some v))|]; reflexivity.
   - reflexivity.
   - destruct (target_eqb t (k, key)); [destruct (tstep c (fst t) tnow s None)|]; reflexivity.
+  - destruct (target_eqb t (k, key)); reflexivity.
+  - destruct (target_eqb t (k, key)); reflexivity.
 Qed.
 
 Lemma trun_app c t h1 : forall tnow s h2,
@@ -267,10 +330,12 @@ Lemma step_all c s o :
   inv s' /\ now s' = op_now o (now s) /\ snd (step c s o) = op_out c o (now s) s /\
   forall t, tstate_of s' t = tview_step c o (now s) t (tstate_of s t).
 Proof.
-  intros Hbk Hinv. destruct o as [k key v|d|k key].
+  intros Hbk Hinv. destruct o as [k key v|d|k key|k key|k key v].
   - apply step_update. exact Hinv.
   - destruct (step_advance c s d Hinv) as (H1 & H2 & H3 & H4). repeat split; auto.
   - apply step_observe; assumption.
+  - apply step_register. exact Hinv.
+  - apply step_complete. exact Hinv.
 Qed.
 
 Lemma R_step c pre s o : by_kind c = true -> R c pre s -> R c (pre ++ [o]) (fst (step c s o)).
@@ -293,7 +358,7 @@ Proof.
   destruct (step c s o) as [s1 x] eqn:Hs. cbn [fst snd] in *.
   specialize (IH (pre ++ [o]) s1 HR').
   destruct (run c s1 r) as [s2 xs]. cbn [snd] in *. f_equal; [|exact IH].
-  rewrite Hout. destruct o as [k key v|d|k key]; try reflexivity.
+  rewrite Hout. destruct o as [k key v|d|k key|k key|k key v]; try reflexivity.
   cbn [op_out]. rewrite trun_app, Hf. cbn [fst snd trun]. rewrite target_eqb_refl.
   destruct (tstep c (fst (k, key)) (now s) (tstate_of s (k, key)) None) as [ts' x'] eqn:Ht.
   cbn [fst] in Ht. rewrite Ht. cbn [snd]. rewrite last_app_singleton. reflexivity.
